@@ -15,6 +15,21 @@ Parts     tag_strings   every string of <= L tokens over the 19-token syntax alp
                         a generated family of documented-syntax tags, through P and 2 H seams;
           roundtrip     for every generated tag: parse_tag(serialize(parse_tag(t))) == parse_tag(t)
                         modulo start_index, serialize is a fixpoint, resolved values are equal;
+                        the generated family puts every leaf (variable, number, both string quotings,
+                        `_("...")`, filter chains head|f:arg|f with `_("...")` as head and as filter
+                        argument, nested-template strings, escaped quotes) on every value position:
+                        bare / k= / attrs:class= / @click= attribute, list entry, spread-list entry,
+                        dict value, and `"k"`, `a`, `_("k")` on the dict-key position;
+          deep_nesting  the full product  prefix . open^k . inner . close^k  with open/close = every sequence
+                        of <= 2 nesting units over `[..]` `[*..]` `{a:..}` `{**..}` (thorough: + `[a, .. ,]`
+                        `{a:a,**..}`), inner over empty innermost container (""), `a`, `[]`, `{}`, `*[]`,
+                        `_("q")`, unclosed `[`, extra `]` (thorough: + `**{}` `,` `a|a:a` `{`),
+                        prefix over "" / `a=` (thorough + `...`), k over values that
+                        straddle the nesting limit M=200 (M/2, M/2+1, M-1, M, M+1) and Python's recursion limit
+                        R=1000 (R/4, R/2, R/2+R/10, R-1, R+1, 2R; thorough 19 values up to 4R), through
+                        P and 2 (thorough 3) H seams; every accepted structure also goes through the
+                        round-trip oracle. Walks of the harness over the AST are iterative, so a
+                        RecursionError can only come from the implementation;
           complexity    pumping families pre . unit^k . post and nesting families open^k . a . close^k
                         for k = 16,32,64,128 (thorough 32,64,128,256), unit over all strings of <= 2
                         tokens of either alphabet plus hand-picked longer units: executed *lines* of
@@ -368,17 +383,15 @@ def valid_tags(thorough: bool):
         tr("t") + ["|", "default", ":"] + tr("x") + ["|", "upper"],
     ]
     if thorough:
-        heads = [["a"], ["u"], ["1"], q("s"), tr("t"), tr("t", "'")]
-        args = [["b"], q("x"), tr("x"), tr("x", "'"), tr("x y")]
-        have = {"".join(x) for x in leaves}
-        for h in heads:
-            for a in args:
-                for tail in ([], ["|", "upper"]):
-                    leaf = h + ["|", "default", ":"] + a + tail
-                    if "".join(leaf) not in have:
-                        have.add("".join(leaf))
-                        leaves.append(leaf)
-        leaves += [["u", " ", "|", " ", "default", " ", ":", " "] + tr("x"), tr("t") + ["|", "add", ":"] + tr("x") + ["|", "add", ":"] + tr("y")]
+        leaves += [
+            q("s") + ["|", "default", ":"] + tr("x"),
+            ["1", "|", "default", ":"] + tr("x y"),
+            ["a", "|", "default", ":"] + tr("x", "'") + ["|", "upper"],
+            tr("t", "'") + ["|", "default", ":"] + q("x"),
+            tr("t") + ["|", "default", ":", "b"],
+            ["u", " ", "|", " ", "default", " ", ":", " "] + tr("x"),
+            tr("t") + ["|", "add", ":"] + tr("x") + ["|", "add", ":"] + tr("y"),
+        ]
     keys = [q("k"), ["a"], tr("k")]
     cs = [",", " "]
 
@@ -570,6 +583,143 @@ def _worker_mut(w, W, payload):
     return agg
 
 
+# ------------------------------------------------------------------ part: deep_nesting
+# One nesting unit = (opener, closer); a case is  prefix . open^k . inner . close^k  where open / close are the
+# concatenation of a sequence of <= 2 units (mixed list / dict / spread nesting) and `inner` ranges over empty
+# innermost containers, plain values, unbalanced brackets ...; k straddles the implementation's own nesting
+# limit and Python's recursion limit (serialize / compile recurse with 2-3 frames per level).
+DEEP_PAIRS = [("[", "]"), ("[*", "]"), ("{a:", "}"), ("{**", "}"),
+              ("[a, ", " ,]"), ("{a:a,**", "}")]
+DEEP_PAIRS_QUICK = 4
+DEEP_INNER = ["", "a", "[]", "{}", "*[]", '_("q")', "[", "]",
+              "**{}", ",", "a|a:a", "{"]
+DEEP_INNER_QUICK = 8
+DEEP_PREFIX = ["", "a=", "..."]
+DEEP_PREFIX_QUICK = 2
+DEEP_HEADS_QUICK = [0, 6]
+DEEP_HEADS_THOROUGH = [0, 5, 6]
+DEFAULT_NESTING_LIMIT = 200
+
+
+def deep_ks(thorough: bool):
+    limits = {DEFAULT_NESTING_LIMIT}
+    try:
+        from django_components.util import tag_parser
+
+        if isinstance(getattr(tag_parser, "MAX_NESTING_DEPTH", None), int) and 0 < tag_parser.MAX_NESTING_DEPTH < 100000:
+            limits.add(tag_parser.MAX_NESTING_DEPTH)
+    except Exception:  # noqa
+        pass
+    R = sys.getrecursionlimit()
+    ks = {R // 4, R // 2, R // 2 + R // 10, R - 1, R + 1, 2 * R}
+    for M in limits:
+        ks |= {M // 2, M // 2 + 1, M - 1, M, M + 1}
+    if thorough:
+        ks |= {R // 3, 3 * R // 4, R, R + R // 2, 4 * R}
+        for M in limits:
+            ks |= {M // 2 - 1, M + 2, 2 * M}
+    return sorted(k for k in ks if k > 0)
+
+
+def deep_cases(thorough: bool):
+    """deterministic list of (prefix, open, inner, close, k) - the full product"""
+    pairs = DEEP_PAIRS if thorough else DEEP_PAIRS[:DEEP_PAIRS_QUICK]
+    inners = DEEP_INNER if thorough else DEEP_INNER[:DEEP_INNER_QUICK]
+    prefixes = DEEP_PREFIX if thorough else DEEP_PREFIX[:DEEP_PREFIX_QUICK]
+    seqs = [(p,) for p in pairs] + [(p, q) for p in pairs for q in pairs]
+    out = []
+    for k in deep_ks(thorough):
+        for seq in seqs:
+            op = "".join(p[0] for p in seq)
+            cl = "".join(p[1] for p in reversed(seq))
+            for inner in inners:
+                for prefix in prefixes:
+                    out.append((prefix, op, inner, cl, k))
+    return out
+
+
+def deep_text(case):
+    prefix, op, inner, cl, k = case
+    return prefix + op * k + inner + cl * k
+
+
+def deep_desc(case):
+    prefix, op, inner, cl, k = case
+    return f"{prefix!r}+{op!r}*{k}+{inner!r}+{cl!r}*{k}"
+
+
+_DEEP = []  # filled in the parent before forking
+
+
+def _deep_seams(case, heads):
+    text = deep_text(case)
+    yield "parse_tag", "P", None, "c12tag " + text
+    for h in heads:
+        yield "Template:" + HEADS[h][0], "T", h, head_source(HEADS[h], text)
+
+
+def _worker_deep(w, W, payload):
+    env()
+    agg = par.Agg()
+    rec = _Rec(agg)
+    heads = payload["heads"]
+    for i, case in enumerate(_DEEP):
+        if i % W != w:
+            continue
+        desc = deep_desc(case)
+        levels = case[4] * sum(case[1].count(c) for c in "[{")
+        order = (levels, desc)
+        base = {"part": "deep_nesting", "prefix": case[0], "open": case[1], "inner": case[2], "close": case[3], "k": case[4]}
+        agg.extra["deep:states"] += 1
+        nontrivial = False
+        for seam_name, kind, h, arg in _deep_seams(case, heads):
+            res = guarded(kind, arg)
+            agg.extra["deep:transitions"] += 1
+            agg.extra["deep:" + kind + ":" + _cls(res)] += 1
+            agg.observe((seam_name, res[0], res[1], levels > DEFAULT_NESTING_LIMIT))
+            if res[0] == "crash":
+                site, msg = res[1]
+                rec.fail(f"crash:{site}", f"{msg}  [seam {seam_name}, {levels} container levels, input {desc}]", order, dict(base, kind=kind, head=h, seam=seam_name))
+            elif res[0] == "hang":
+                rec.hangs += 1
+                rec.fail(f"hang:{res[1]}", f"no answer within {HANG_SECONDS} s  [seam {seam_name}, {levels} container levels, input {desc}]", order,
+                         dict(base, kind=kind, head=h, seam=seam_name))
+            elif res[0] == "ok" or (res[0] == "TSE" and res[2]):
+                nontrivial = True
+            if kind == "P" and res[0] == "ok":
+                # an accepted deep structure is documented syntax: its canonical serialisation must re-parse to the same arguments
+                agg.extra["deep:accepted"] += 1
+                if levels > DEFAULT_NESTING_LIMIT:
+                    agg.extra["deep:accepted_beyond_200_levels"] += 1
+                agg.extra["deep:transitions"] += 2
+                signal.signal(signal.SIGALRM, _on_alarm)
+                signal.setitimer(signal.ITIMER_REAL, HANG_SECONDS)
+                try:
+                    _status, problem = roundtrip_problem(arg)
+                except _Hang:
+                    problem = None
+                    rec.hangs += 1
+                    rec.fail(f"hang:{_hang_site[0]}", f"no answer within {HANG_SECONDS} s  [round trip, {levels} container levels, input {desc}]", order,
+                             dict(base, kind="R", head=None, seam="roundtrip"))
+                except Exception as e:  # serialize / re-parse raised something that is not a TemplateSyntaxError
+                    signal.setitimer(signal.ITIMER_REAL, 0)
+                    problem = None
+                    rec.fail(f"crash:{_site(e)[0]}", f"{type(e).__name__}: {e}  [round trip, {levels} container levels, input {desc}]", order,
+                             dict(base, kind="R", head=None, seam="roundtrip"))
+                finally:
+                    signal.setitimer(signal.ITIMER_REAL, 0)
+                if problem:
+                    rec.fail(f"roundtrip:{problem[0]}", f"{problem[1][:400]}  [{levels} container levels, input {desc}]", order,
+                             dict(base, kind="R", head=None, seam="roundtrip"))
+        if nontrivial:
+            agg.extra["deep:nontrivial"] += 1
+        if rec.hangs >= MAX_HANGS:
+            agg.caps.append(f"worker {w} stopped after {rec.hangs} hangs")
+            break
+    rec.flush()
+    return agg
+
+
 # ------------------------------------------------------------------ part: complexity
 _TRACED = {}
 
@@ -644,7 +794,8 @@ def families():
 
 
 NEST = [("P", "[", "a", "]"), ("P", "{a:", "a", "}"), ("P", "[{a:", "a", "}]"), ("P", "[a,", "a", "]"), ("P", "a=[", '"q"', ",]"),
-        ("T", "[", "a", "]"), ("T", "{a:", "a", "}"), ("T", "[{a:", "a", "}]"), ("P", "[[[[", "a", "]]]]"), ("T", "[[[[", "a", "]]]]")]
+        ("T", "[", "a", "]"), ("T", "{a:", "a", "}"), ("T", "[{a:", "a", "}]"), ("P", "[[[[", "a", "]]]]"), ("T", "[[[[", "a", "]]]]"),
+        ("P", "[", "", "]"), ("T", "[", "", "]"), ("P", "{a:[", "", "]}"), ("T", "{a:[", "", "]}"), ("P", "[*[", "", "]]"), ("T", "{**{a:", "{}", "}}")]
 
 
 def family_input(fam, k):
@@ -734,7 +885,7 @@ def _key(order):
 
 
 def run(ctx):
-    global _MUTANTS, _VALID
+    global _MUTANTS, _VALID, _DEEP
     ev, fnd = ctx.ev, ctx.fnd
     thorough = ctx.tier == "thorough"
     env()
@@ -748,8 +899,11 @@ def run(ctx):
             seen.add("".join(m))
     _MUTANTS = sorted(seen, key=lambda s: (len(s), s))
     nfam = len(families()) + len(NEST)
+    _DEEP = deep_cases(thorough)
+    deep_heads = DEEP_HEADS_THOROUGH if thorough else DEEP_HEADS_QUICK
     print(f"C12: tag strings <= {L_tag} tokens: {n_tag} x {1 + len(HEADS)} seams; templates <= {L_tpl} tokens: {n_tpl}; "
-          f"valid tags {len(_VALID)}, distinct mutants {len(_MUTANTS)} x {1 + len(MUT_HEADS)} seams; families {nfam} x 4", flush=True)
+          f"valid tags {len(_VALID)}, distinct mutants {len(_MUTANTS)} x {1 + len(MUT_HEADS)} seams; "
+          f"deep nesting cases {len(_DEEP)} x {1 + len(deep_heads)} seams (k in {deep_ks(thorough)}); families {nfam} x 4", flush=True)
     ev.rule = (
         "ENUM: every string over the syntax alphabet up to the bound is parsed through parse_tag+compile and through Template() "
         "for 7 tag heads, every template-alphabet string through Template(); outcome must be return or TemplateSyntaxError. "
@@ -801,6 +955,26 @@ def run(ctx):
     if ev.caps_hit:
         print("C12: enumeration cut short by hangs - remaining parts skipped (the run is a violation)", flush=True)
         return
+    # ---- deep nesting
+    t0 = time.time()
+    agg = par.run_sharded(_worker_deep, {"heads": deep_heads})
+    print(f"C12: deep nesting done in {time.time() - t0:.1f} s", flush=True)
+    if agg.caps:
+        ev.caps_hit.extend(agg.caps)
+    elif agg.extra["deep:states"] != len(_DEEP):
+        raise par.HarnessError("deep-nesting enumeration incomplete")
+    _merge_failures(agg, fnd)
+    if not agg.extra["deep:accepted"] and not fnd.total_failures:
+        raise par.HarnessError("no deep-nesting case is accepted by parse_tag - generator broken")
+    ev.add_part("deep_nesting", states=agg.extra["deep:states"], transitions=agg.extra["deep:transitions"], validated=agg.extra["deep:transitions"],
+                nontrivial=agg.extra["deep:nontrivial"],
+                expected=Counter({k[5:]: v for k, v in agg.extra.items() if k.startswith("deep:P:") or k.startswith("deep:T:") or k.startswith("deep:accepted")}),
+                bound={"k": deep_ks(thorough), "units": sorted({c[1] + "..." + c[3] for c in _DEEP}), "innermost": sorted({c[2] for c in _DEEP}),
+                       "prefixes": sorted({c[0] for c in _DEEP}), "heads": [HEADS[h][0] for h in deep_heads]},
+                samples=[{"input": "a=" + "'['*600+']'*600", "expect": "TemplateSyntaxError (or returns), never RecursionError"}])
+    if ev.caps_hit:
+        print("C12: enumeration cut short by hangs - remaining parts skipped (the run is a violation)", flush=True)
+        return
     # ---- complexity
     t0 = time.time()
     KS = KS_THOROUGH if thorough else KS_QUICK
@@ -835,6 +1009,21 @@ def replay(ctx, case):
             return False
         print("tag:", repr(case["input"]), "status:", status, "problem:", problem)
         return problem is None
+    if part == "deep_nesting":
+        dc = (case["prefix"], case["open"], case["inner"], case["close"], case["k"])
+        print("input:", deep_desc(dc), "seam:", case.get("seam"))
+        if case["kind"] == "R":
+            try:
+                status, problem = roundtrip_problem("c12tag " + deep_text(dc))
+            except Exception as e:  # noqa
+                print("round trip raised", type(e).__name__, str(e)[:200])
+                return False
+            print("status:", status, "problem:", problem)
+            return problem is None
+        arg = "c12tag " + deep_text(dc) if case["kind"] == "P" else head_source(HEADS[case["head"]], deep_text(dc))
+        res = guarded(case["kind"], arg)
+        print("outcome:", res[0], res[1])
+        return res[0] in ("ok", "TSE", "stock")
     if part == "complexity":
         fam = tuple(case["family"])
         KS = tuple(case.get("ks", KS_THOROUGH))
